@@ -585,4 +585,28 @@ theorem HOk_contains (d : HData) (f : Row → Option Key) (rows : List Row) (h :
     obtain ⟨p, hp⟩ := exists_last f rows k h1
     rw [(h k p).mpr hp]; rfl
 
+/-- replacing a row by one entered under the same key (or equally not entered) changes nothing
+for this index: the skipped maintenance of `update_selective` is sound -/
+theorem HOk_set_same (d : HData) (f : Row → Option Key) (rows : List Row) (i : Nat) (old new : Row)
+    (h : HOk d f rows) (hold : rows[i]? = some old) (hf : f old = f new) :
+    HOk d f (rows.set i new) := by
+  have hi : i < rows.length := by
+    rcases Nat.lt_or_ge i rows.length with h1 | h1
+    · exact h1
+    · rw [List.getElem?_eq_none h1] at hold; cases hold
+  have hh : ∀ k q, HoldsAt f (rows.set i new) k q ↔ HoldsAt f rows k q := by
+    intro k q
+    rw [HoldsAt_set _ _ _ _ _ _ hi]
+    by_cases hq : q = i
+    · subst hq
+      simp only [true_and, ne_eq, not_true_eq_false, false_and, or_false]
+      constructor
+      · intro h1; exact ⟨old, hold, hf ▸ h1⟩
+      · rintro ⟨x, hx, hfx⟩; rw [hold] at hx; cases hx; exact hf ▸ hfx
+    · simp [hq]
+  intro k p
+  rw [h k p]
+  unfold IsLast
+  simp only [hh]
+
 end VibeProof.Idx
